@@ -392,7 +392,7 @@ func totalityPhase(run *evid.Run, al []*elem, thorough bool) {
 		exec := func(c caseT, data []byte, one bool, truncated bool) {
 			s, err := openDamaged(w.withData(data), one, c)
 			nEval++
-			if nEval&255 == 0 {
+			if nEval&15 == 0 {
 				g.Touch()
 			}
 			if err != nil {
